@@ -508,6 +508,14 @@ def c06_shard(job):
                 run("v2:" + label, MF.v2000_text(M2))
         for label, kw in sdevs:
             run("v3:" + label, MF.v3000_text(M, MF.with_(sp0, **kw)))
+        if len(M.atoms) >= 4 or mi % 25 == 0:
+            # spelling at the text level (owned by C07, repeated here on a subset with the string oracle): every
+            # continuation split / blank run, on the default spelling and on one with unrelated keywords on every atom
+            sp_kw = MF.with_(sp0, extra_atom_kw=[(i, 0, "CFG=1") for i in range(len(M.atoms))] +
+                                                 [(i, 9, "HCOUNT=1") for i in range(len(M.atoms))])
+            for spx, tag in ((sp0, ""), (sp_kw, "kw+")):
+                for label, kw in MF.v3_text_deviations(M, spx, tier):
+                    run("v3:" + tag + label, MF.v3000_text(M, MF.with_(spx, **kw)))
         v2devs = list(v2_deviations("c06", M, tier))
         for label, kw in v2devs:
             try:
